@@ -8,7 +8,7 @@
     [vm_compute] for the extraction self-check.  All values are integers ([Z]):
     [-1] = None, [-2] = the call panicked, booleans 0/1. *)
 From Verif Require Import Base.Prelude Model.ShortMsg Model.PerChannel Model.CC14 Model.Nrpn
-  Model.Polling Spec.MidiTable Spec.CC14Spec Spec.NrpnSpec.
+  Model.Polling Spec.MidiTable Spec.CC14Spec Spec.NrpnSpec Spec.PollMonitor.
 Open Scope Z_scope.
 
 Record verdict : Type := mkV { v_agree : bool; v_holds : bool; v_model : list Z }.
@@ -238,6 +238,137 @@ Definition spec_101 (ch : N) (reg : bool) (num n : N) (vs : list Z) : list Z :=
 Definition model_110 (h : list pnop) : list Z := outs_or_panic (pn_run pn_new_scanner h) enc_pn.
 Definition spec_110 (h : list pnop) : list Z := flat_map enc_pn (pn_spec_outs h).
 
+(** * polling scanner: C13 / C14 *)
+Fixpoint dec_sops (l : list Z) : list sop :=
+  match l with
+  | k :: a :: b :: c :: t =>
+      (if Z.eqb k 2 then OReset
+       else if Z.eqb k 3 then OPoll (nz a)
+       else if Z.eqb k 7 then OPoll (nz a)
+       else if Z.eqb k 4 then OTick (nz a)
+       else OFeed (op_bytes k a b c)) :: dec_sops t
+  | _ => []
+  end.
+
+Definition enc_out2 (o : out2) : list Z := enc_pn (fst o) ++ enc_pn (snd o).
+
+Definition dec_dt (z : Z) : datatype :=
+  if Z.eqb z 1 then DataIncrement else if Z.eqb z 2 then DataDecrement else DataEntry.
+
+Definition dec_pn6 (a b c d e f : Z) : option pnmsg :=
+  if Z.ltb a 0 then None
+  else Some (mkPN (nz a) (nz b) (nz c) (Z.eqb d 1) (Z.eqb e 1) (dec_dt f)).
+
+Fixpoint dec_out2s (l : list Z) : list out2 :=
+  match l with
+  | a1 :: b1 :: c1 :: d1 :: e1 :: f1 :: a2 :: b2 :: c2 :: d2 :: e2 :: f2 :: t =>
+      (dec_pn6 a1 b1 c1 d1 e1 f1, dec_pn6 a2 b2 c2 d2 e2 f2) :: dec_out2s t
+  | _ => []
+  end.
+
+Definition poll_outs (timeout : N) (h : list sop) : outcome (list out2) :=
+  match poll_run 0 (poll_new_scanner timeout) h with
+  | Ok (_, _, outs) => Ok outs
+  | Panic => Panic
+  end.
+
+Definition enc_outs (r : outcome (list out2)) : list Z :=
+  match r with Ok outs => flat_map enc_out2 outs | Panic => [ZPANIC] end.
+
+(** tag 140: a history of feeds, polls, resets and clock ticks from a new scanner; the
+    property decider is the C14 trace monitor run on the implementation's outputs *)
+Definition check_140 (timeout : N) (h : list sop) (obs : list Z) : verdict :=
+  let model := enc_outs (poll_outs timeout h) in
+  mkV (listZ_eqb obs model)
+      (Nat.eqb (length obs) (12 * length h) && check_C14 timeout h (dec_out2s obs))
+      model.
+
+(** tag 130: only the results of poll operations are observed *)
+Fixpoint only_polls (h : list sop) (outs : list out2) : list Z :=
+  match h, outs with
+  | OPoll _ :: h', o :: outs' => enc_out2 o ++ only_polls h' outs'
+  | _ :: h', _ :: outs' => only_polls h' outs'
+  | _, _ => []
+  end.
+
+Definition check_130 (timeout : N) (h : list sop) (obs : list Z) : verdict :=
+  match poll_outs timeout h with
+  | Ok outs =>
+      let model := only_polls h outs in
+      let seen := only_polls h (dec_out2s obs) in
+      let ok := Nat.eqb (length obs) (12 * length h) && listZ_eqb seen model in
+      mkV ok ok model
+  | Panic => mkV false false [ZPANIC]
+  end.
+
+(** tag 131: the same feeds run under two different clocks (no polls): feed results must not
+    depend on the passage of time.  obs = results of run A ++ results of run B. *)
+Definition check_131 (timeout : N) (ha hb : list sop) (obs : list Z) : verdict :=
+  let model := enc_outs (poll_outs timeout ha) ++ enc_outs (poll_outs timeout hb) in
+  let na := (12 * length ha)%nat in
+  let oa := firstn na obs in
+  let ob := skipn na obs in
+  let strip := fun (h : list sop) (l : list Z) =>
+                 flat_map (fun p => match fst p with OTick _ => [] | _ => enc_out2 (snd p) end)
+                          (combine h (dec_out2s l)) in
+  mkV (listZ_eqb obs model)
+      (Nat.eqb (length obs) (12 * (length ha + length hb)) &&
+       listZ_eqb (strip ha oa) (strip hb ob))
+      model.
+
+(** tag 132: run A contains polls of kind 7 that come before the timeout of any pending value
+    byte of their channel; run B is run A without them.  They must return nothing and must not
+    change any other result. *)
+Fixpoint early_ok (timeout now : N) (last : list (option N)) (l : list Z) : bool :=
+  match l with
+  | k :: a :: b :: c :: t =>
+      if Z.eqb k 4 then early_ok timeout (now + nz a) last t
+      else if Z.eqb k 7 then
+        match nth_error last (Z.to_nat a) with
+        | Some (Some t0) => N.ltb (now - t0) timeout && early_ok timeout now last t
+        | Some None => early_ok timeout now last t
+        | None => false
+        end
+      else if Z.eqb k 2 then early_ok timeout now (map (fun _ => None) last) t
+      else if Z.eqb k 3 then early_ok timeout now last t
+      else
+        (* a feed: remember the time of controller 6 / 38 bytes per channel *)
+        let s := nz a in
+        if N.eqb (s / 16) 11 && (N.eqb (nz b) 6 || N.eqb (nz b) 38)
+        then early_ok timeout now (upd last (N.to_nat (s mod 16)) (Some now)) t
+        else early_ok timeout now last t
+  | _ => true
+  end.
+
+Fixpoint drop_kind7 (l : list Z) : list Z :=
+  match l with
+  | k :: a :: b :: c :: t => if Z.eqb k 7 then drop_kind7 t else k :: a :: b :: c :: drop_kind7 t
+  | _ => []
+  end.
+
+Fixpoint split_kind7 (l : list Z) (outs : list out2) : list Z * list Z :=
+  match l, outs with
+  | k :: a :: b :: c :: t, o :: outs' =>
+      let '(x, y) := split_kind7 t outs' in
+      if Z.eqb k 7 then (enc_out2 o ++ x, y) else (x, enc_out2 o ++ y)
+  | _, _ => ([], [])
+  end.
+
+Definition check_132 (timeout : N) (l : list Z) (obs : list Z) : verdict :=
+  let ha := dec_sops l in
+  let hb := dec_sops (drop_kind7 l) in
+  let model := enc_outs (poll_outs timeout ha) ++ enc_outs (poll_outs timeout hb) in
+  let na := (12 * length ha)%nat in
+  let '(early_results, others_a) := split_kind7 l (dec_out2s (firstn na obs)) in
+  let others_b := flat_map enc_out2 (dec_out2s (skipn na obs)) in
+  if negb (early_ok timeout 0 (repeat None 16) l) then bad_record
+  else
+    mkV (listZ_eqb obs model)
+        (Nat.eqb (length obs) (12 * (length ha + length hb)) &&
+         forallb (fun z => Z.eqb z ZNONE) early_results &&
+         listZ_eqb others_a others_b)
+        model.
+
 Definition check (tag : Z) (inp obs : list Z) : verdict :=
   match tag, inp with
   | 70, [ch; cn; v] => verdict_of obs (model_70 (nz ch) (nz cn) (nz v)) (spec_70 (nz ch) (nz cn) (nz v))
@@ -256,5 +387,11 @@ Definition check (tag : Z) (inp obs : list Z) : verdict :=
         (model_101 (nz ch) (Z.eqb reg 1) (nz num) (nz n) kind (dec_pnops prior) vs)
         (spec_101 (nz ch) (Z.eqb reg 1) (nz num) (nz n) vs)
   | 110, h => verdict_of obs (model_110 (dec_pnops h)) (spec_110 (dec_pnops h))
+  | 130, timeout :: h => check_130 (nz timeout) (dec_sops h) obs
+  | 131, timeout :: n :: rest =>
+      let '(a, b) := take_ops (Z.to_nat n) rest in
+      check_131 (nz timeout) (dec_sops a) (dec_sops b) obs
+  | 132, timeout :: l => check_132 (nz timeout) l obs
+  | 140, timeout :: h => check_140 (nz timeout) (dec_sops h) obs
   | _, _ => bad_record
   end.
